@@ -15,7 +15,7 @@ import (
 
 func scriptedWorld(weights []uint64, byz []string, maxH uint64) *World {
 	cfg := &CaseConfig{Committees: map[uint64][]interfaces.CommitteeMember{}, Byz: map[string]bool{}, Outsiders: map[string]bool{}, MaxH: maxH}
-	ids := []string{"n00", "n01", "n02", "n03"}
+	ids := []string{"nd00", "nd01", "nd02", "nd03"}
 	cfg.Universe = append(cfg.Universe, ids...)
 	for h := uint64(1); h <= maxH+1; h++ {
 		var cm []interfaces.CommitteeMember
@@ -64,7 +64,7 @@ func (w *World) deliverAll(match func(f *Flight) bool) int {
 // block; n02 and n03 (prepared, but the COMMITs towards them are lost) time out into view 1, where the
 // Byzantine leader sends them a standalone PREPREPARE for another block: they prepare and commit it.
 func ScriptBarePreprepareFork() *Result {
-	w := scriptedWorld([]uint64{1, 1, 1, 1}, []string{"n01"}, 1)
+	w := scriptedWorld([]uint64{1, 1, 1, 1}, []string{"nd01"}, 1)
 	w.Start()
 	isEnv := func(e ref.Env) func(f *Flight) bool {
 		return func(f *Flight) bool { return f.Msg != nil && f.Msg.Env == e }
@@ -73,33 +73,33 @@ func ScriptBarePreprepareFork() *Result {
 	w.deliverAll(isEnv(ref.EnvPP))
 	w.deliverAll(isEnv(ref.EnvP))
 	// COMMITs: only those addressed to n00 are delivered, the rest is lost
-	w.deliverAll(func(f *Flight) bool { return f.Msg != nil && f.Msg.Env == ref.EnvC && f.To == "n00" })
+	w.deliverAll(func(f *Flight) bool { return f.Msg != nil && f.Msg.Env == ref.EnvC && f.To == "nd00" })
 	w.take(isEnv(ref.EnvC))
 	// n02 and n03 time out into view 1 (leader n01 is Byzantine)
-	w.Timeout(w.Nodes["n02"])
-	w.Timeout(w.Nodes["n03"])
+	w.Timeout(w.Nodes["nd02"])
+	w.Timeout(w.Nodes["nd03"])
 	w.take(isEnv(ref.EnvVC))
 	// the Byzantine leader of view 1 sends a standalone PREPREPARE for a fresh block, then supports it
 	adv := NewAdversary(w, &Profile{Adversary: true, AdvWeights: map[string]int{"barePP": 1}})
 	E := &spi.Blk{H: 1, Body: "evil-scripted"}
 	inst := uint64(spi.InstanceId)
-	pp := adv.mkRefMsg(ref.EnvPP, ref.PP, "n01", inst, 1, 1, spi.HashOf(E), E)
-	for _, to := range []string{"n02", "n03"} {
-		w.Deliver(w.Inject("n01", to, pp))
+	pp := adv.mkRefMsg(ref.EnvPP, ref.PP, "nd01", inst, 1, 1, spi.HashOf(E), E)
+	for _, to := range []string{"nd02", "nd03"} {
+		w.Deliver(w.Inject("nd01", to, pp))
 	}
 	// their PREPAREs reach each other: with the leader's proposal that is quorum weight (3 of 4)
 	w.deliverAll(func(f *Flight) bool { return f.Honest && f.Msg != nil && f.Msg.Env == ref.EnvP && f.Msg.V == 1 })
-	for _, to := range []string{"n02", "n03"} {
-		w.Deliver(w.Inject("n01", to, adv.mkRefMsg(ref.EnvC, ref.C, "n01", inst, 1, 1, spi.HashOf(E), nil)))
+	for _, to := range []string{"nd02", "nd03"} {
+		w.Deliver(w.Inject("nd01", to, adv.mkRefMsg(ref.EnvC, ref.C, "nd01", inst, 1, 1, spi.HashOf(E), nil)))
 	}
-	w.deliverAll(func(f *Flight) bool { return f.Honest && f.Msg != nil && f.Msg.Env == ref.EnvC && f.Msg.V == 1 && f.To != "n00" })
+	w.deliverAll(func(f *Flight) bool { return f.Honest && f.Msg != nil && f.Msg.Env == ref.EnvC && f.Msg.V == 1 && f.To != "nd00" })
 	return &Result{Cfg: w.Cfg, Viol: w.Mon.Viol, Stats: w.Mon.Stats, Trace: w.Trace, Steps: len(w.Trace)}
 }
 
 // ScriptHeavyMember: weights 7,1,1,1 (W=10, f=3, Q=7); the three light members are Byzantine and silent.
 // The only correct member holds quorum weight alone, yet never commits in the views it leads.
 func ScriptHeavyMember() *Result {
-	w := scriptedWorld([]uint64{1, 7, 1, 1}, []string{"n00", "n02", "n03"}, 1)
+	w := scriptedWorld([]uint64{1, 7, 1, 1}, []string{"nd00", "nd02", "nd03"}, 1)
 	w.Start()
 	res := &Result{Cfg: w.Cfg}
 	p := &Profile{Tail: true, TailQuiet: true}
